@@ -26,7 +26,7 @@ func ruleEpochCacheShapes(c *eng.Ctx) {
 		}
 		return out
 	}
-	if fn := c.Fn(ec + "LastOffsetForLeaderEpoch"); fn != nil {
+	if fn := epochQueryFn(c); fn != nil {
 		none := eng.CmpEdges(fn, call("findEpoch"), eng.NilConst, eng.EQ)
 		some := eng.CmpEdges(fn, call("findEpoch"), eng.NilConst, eng.NE)
 		ok := len(none) > 0 && len(some) > 0
@@ -276,4 +276,13 @@ func ruleISRPersisted(c *eng.Ctx) {
 		})
 		c.Check(ok && stored, k+" persists the in-sync set as it is after the change", p.Pos(fn.Pos()), "p.Isr is rebuilt from p.isr after the map was updated", k+" rebuilds the persisted ISR list before (or without) changing the in-memory set (path "+w.String()+"): snapshots and pause/resume bring back the old in-sync set, so a replica that was removed for lagging is electable again after a restore")
 	}
+}
+
+// epochQueryFn: the function of the leader epoch cache that looks the end of an epoch up — LastOffsetForLeaderEpoch, or the
+// (offset, found) form it delegates to since -1 stopped being an unambiguous answer (F80).
+func epochQueryFn(c *eng.Ctx) *ssa.Function {
+	if fn := c.FnQuiet(cl + "(*leaderEpochCache).lastOffsetForLeaderEpoch"); fn != nil {
+		return fn
+	}
+	return c.Fn(cl + "(*leaderEpochCache).LastOffsetForLeaderEpoch")
 }
